@@ -11,6 +11,8 @@ fn main() {
         #[cfg(not(feature = "sym"))]
         "prove_component" => components::prove(&mut ctx, &args[2..]),
         "verify" => protocol::run_verify(&mut ctx, &args[2..]),
+        "kernels" => kernels::run(&mut ctx, &args[2..]),
+        "kzg" => kernels::run_kzg(&mut ctx, &args[2..]),
         "extract" => gadgets::run(&mut ctx, &args[2..]),
         "extract_batch" => gadgets::run_batch(&mut ctx, &args[2..]),
         "prove_gadget" => gadgets::prove(&mut ctx, &args[2..]),
